@@ -33,6 +33,11 @@ def agg_rules(tier: str):
          None),
         ("eq_minmax", "r(P,X) :- grp(P), X = #{F} {{ V : q(P,V) }}.\nt(P,X) :- grp(P), X = #{G} {{ V : q(P,V) }}.", None),
         ("two_elems", "r(P,X) :- grp(P), X = #{F} {{ V : q(P,V) ; W : dq(P,W) }}.", None),
+        # the assignment next to a conditional literal / aggregate with its own local variables (named W, X and V)
+        ("eq_scope_cond", "r(P,X) :- grp(P), X = #{F} {{ V : q(P,V) }}, dq(P,W) : dq(P,W), W > 5.", "r2"),
+        ("eq_scope_count", "r(P,X) :- grp(P), X = #{F} {{ V : q(P,V) }}, 1 <= #count {{ W : dq(P,W) }}.", "r2"),
+        ("eq_scope_cond_x", "r(P,M) :- grp(P), M = #{F} {{ V : q(P,V) }}, dq(P,X) : dq(P,X), X > 5.", "r2"),
+        ("eq_group_x", "r(X,M) :- grp(X), M = #{F} {{ V : q(X,V) }}.", "r2"),
         ("constraint", ":- grp(P), #{F} {{ V : q(P,V) }} > 2.", None),
     ]
     for op in OPS:
@@ -86,6 +91,13 @@ USERS = [
     ("min_twin", "#minimize {{ X@1,P : r(P,X) ; X@1,P : grp(P), X = 3 }}.", ["r2"]),
     ("weak_twin", ":~ r(P,X). [X@1,P]\n:~ grp(P), X = 3. [X@1,P]", ["r2"]),
     ("sum_twin", "u(S) :- S = #sum {{ X,P : r(P,X) ; X,P : grp(P), X = 3 }}.", ["r2"]),
+    ("sum_group_weight", "u(S) :- S = #sum {{ P,X : r(P,X) }}.", ["r2"]),
+    ("min_group_weight", "#minimize {{ P@1,X : r(P,X) }}.", ["r2"]),
+    ("weak_value_prio", ":~ r(P,X), X > 0. [X@X,P]", ["r2"]),
+    ("weak_value_tuple", ":~ r(P,X). [X@1,P,X]", ["r2"]),
+    ("sum_value_tuple", "u(S) :- S = #sum {{ X,P,X : r(P,X) }}.", ["r2"]),
+    ("weak_abs_tuple", ":~ r(P,X). [X@1,|P|]", ["r2"]),
+    ("weak_neg_tuple", ":~ r(P,X). [X@1,-P]", ["r2"]),
     ("weak_twin_unify", ":~ r(P,X). [X@1,P]\n:~ grp(G), Y = 3. [Y@1,G]", ["r2"]),
 ]
 
@@ -122,4 +134,19 @@ def jobs(tier: str):
                         yield job("C12", prog, universe(qname, tier), [config(["minmax_chains"], inp, [], oracle)],
                                   meta={"q": qname, "agg": aname, "fun": fun, "user": uname})
 
+    def signed_groups():
+        # groups g and -g: tuple terms like |P| or P*P identify the group only up to sign
+        base = "{ q(P,V) } :- dq(P,V).\nq(P,0) :- grp(P).\nr(P,X) :- grp(P), X = #max { V : q(P,V) }."
+        uni = ["grp(1)", "grp(-1)", "dq(1,3)", "dq(-1,3)", "dq(-1,2)", "dq(1,5)"]
+        inp = [["dq", 2], ["grp", 1]]
+        for uname, user in (("abs", ":~ r(P,X). [X@1,|P|]"), ("abs_fun", ":~ r(P,X). [X@1,f(|P|)]"),
+                            ("neg", ":~ r(P,X). [X@1,-P]"), ("square", ":~ r(P,X). [X@1,P*P]"),
+                            ("sum_abs", "u(S) :- S = #sum { X,|P| : r(P,X) }."), ("sum_neg", "u(S) :- S = #sum { X,-P : r(P,X) }."),
+                            ("min_abs", "#minimize { X@1,|P| : r(P,X) }."), ("max_abs", "#maximize { X@1,|P| : r(P,X) }."),
+                            ("plain", ":~ r(P,X). [X@1,P]")):
+            for fun in ("max", "min"):
+                yield job("C12/signed", base.replace("#max", "#" + fun) + "\n" + user, uni,
+                          [config(["minmax_chains"], inp, [], oracle)], meta={"user": uname, "fun": fun})
+
     yield from dedupe(gen())
+    yield from dedupe(signed_groups())
